@@ -92,7 +92,7 @@ class SetterScan:
                 sp = split_cmp(text, "==")
                 if sp and set(sp) == {"Undefined", vp} and truth:
                     self.vstate = "skip"
-            else:
+            elif it[0] == "call":
                 _, cal, args, full, line, stmt = it
                 if cal == "->validate" and full.startswith(f"{td}->validate("):
                     self.vstate = "pending"
